@@ -93,6 +93,9 @@ class SelfLeakedVisitor(OpVisitor[GenAndKill]):
         return CLEAN
 
     def visit_assign_multi(self, op: AssignMulti) -> GenAndKill:
+        # The array is typically passed on by address (vectorcall arguments).
+        if any(src is self.self_reg for src in op.src):
+            return DIRTY
         return CLEAN
 
     def visit_set_mem(self, op: SetMem) -> GenAndKill:
@@ -136,6 +139,9 @@ class SelfLeakedVisitor(OpVisitor[GenAndKill]):
         if cl.get_method(op.attr):
             # Property - calls a function
             return self.check_register_op(op)
+        if op.src is self.self_reg:
+            # 'self' is stored in another object, where arbitrary code can find it.
+            return DIRTY
         return CLEAN
 
     def visit_load_static(self, op: LoadStatic) -> GenAndKill:
